@@ -1,86 +1,159 @@
 #!/usr/bin/env python3
 """Runs every seeded change: does the patch apply to /repo's HEAD, does the repository's own test
 suite still pass with it, and does the property's quick check report it. Writes seeded/<id>/meta.json
-and seeded/RESULTS.md. /repo is restored after every seed (never committed)."""
-import json, os, re, subprocess, sys
+and seeded/RESULTS.md.
+
+Two modes:
+  tools/run_seeds.py [names...]            scratch worktrees of /repo (HEAD) under /tmp/rs/, N in parallel, through
+                                           tools/wtcheck.sh (a private copy of the harness bound to the worktree);
+                                           /repo is not touched
+  tools/run_seeds.py --official [names...] the patch is applied to /repo itself (git -C /repo apply), ./check is run,
+                                           /repo is restored (git checkout); sequential
+  tools/run_seeds.py --report              rewrites RESULTS.md from the meta.json files
+"""
+import json, os, re, subprocess, sys, concurrent.futures, threading
 
 ROOT = os.path.dirname(os.path.dirname(os.path.abspath(__file__)))
 SEEDS = os.path.join(ROOT, 'seeded')
-only = sys.argv[1:]
+args = sys.argv[1:]
+official = '--official' in args
+report_only = '--report' in args
+only = [a for a in args if not a.startswith('--')]
+PAR = int(os.environ.get('RUN_SEEDS_PAR', '4'))
+
 
 def sh(cmd, **kw):
     return subprocess.run(cmd, shell=True, capture_output=True, text=True, **kw)
 
-def restore():
-    sh('git -C /repo checkout -- . && git -C /repo clean -fdq -- rusty_basic rusty_parser rusty_linter rusty_pc rusty_variant rusty_bit_vec rusty_common')
 
 NOTES = {
     'C06-B': 'neutralised by the fix 982ebab (arithmetic expressions are always cast to a numeric target): the patched branch is no longer reached',
     'C02-A': 'obsolete: it moved the PushRegisters / PopRegisters of FOR bodies, which the fix cdfc88a removed (limit and step are hidden variables now); C02-B covers the property on the current tree',
     'C15-B': 'obsolete: it instrumented the register frames of FOR bodies, which the fixes 511011f and cdfc88a removed; replaced by the hand-made C15-C',
     'C16-B': 'neutralised by the fix e9c09b1 (one PrintState per PRINT statement): the leaked format cursor no longer exists; on the pre-fix PRINT code the uhist group reports it; replaced by the hand-made C16-C',
+    'C15-E': 'obsolete: it rearranged where the SELECT CASE subject is popped from the value stack; since the fix 9b22fbe the subject lives in a hidden variable and nothing is on the stack',
 }
-HAND_MADE = {'C15-C', 'C16-C'}
+HAND_MADE = {'C15-C', 'C16-C', 'C06-C'}
 
-rows = []
-if only == ['--report']:
-    for name in sorted(os.listdir(SEEDS)):
-        mp = os.path.join(SEEDS, name, 'meta.json')
-        if os.path.isfile(mp):
-            m = json.load(open(mp))
-            if name in NOTES:
-                m['note'] = NOTES[name]
-                json.dump(m, open(mp, 'w'), indent=1)
-            rows.append(m)
-    only = []
-    names = []
-else:
-    names = sorted(os.listdir(SEEDS))
-for name in names:
+
+def base_meta(name):
+    d = os.path.join(SEEDS, name)
+    prop = name.split('-')[0]
+    meta = {'seed': name, 'property': prop,
+            'origin': 'hand-made (see notes.md)' if name in HAND_MADE else 'fresh sub-agent given only the property text and its own worktree',
+            'ported_to_fixed_tree': os.path.exists(os.path.join(d, 'patch.orig.diff'))}
+    cp = os.path.join(d, 'confirm.json')
+    if os.path.isfile(cp):
+        c = json.load(open(cp))
+        meta['needs_to_manifest'] = c.get('needs_to_manifest', '')
+        meta['confirmed_independently'] = c.get('confirmed_independently')
+    return meta
+
+
+def summarise_check(meta, out, rc, cmd):
+    sigs = re.findall(r'signature: (.*)', out)
+    meta['check'] = {'command': cmd, 'exit': rc, 'violation_signatures': len(set(sigs)), 'first_signatures': sorted(set(sigs))[:5]}
+    if rc == 1 and sigs:
+        meta['status'] = 'caught'
+    elif rc == 0:
+        meta['status'] = 'not reported'
+    else:
+        meta['status'] = f'check exit {rc}'
+
+
+def tests(cwd):
+    t = sh('cargo test --workspace --no-fail-fast --offline 2>&1 | grep -E "^test result"', cwd=cwd)
+    return {'passed': sum(int(m) for m in re.findall(r'(\d+) passed', t.stdout)), 'failed': sum(int(m) for m in re.findall(r'(\d+) failed', t.stdout))}
+
+
+def run_official(name):
     d = os.path.join(SEEDS, name)
     patch = os.path.join(d, 'patch.diff')
-    if not os.path.isfile(patch) or (only and name not in only):
-        continue
-    prop = name.split('-')[0]
-    meta = {'seed': name, 'property': prop, 'origin': 'hand-made (see notes.md)' if name in HAND_MADE else 'fresh sub-agent given only the property text and its own worktree',
-            'ported_to_fixed_tree': os.path.exists(os.path.join(d, 'patch.orig.diff'))}
-    restore()
+    meta = base_meta(name)
+    restore = 'git -C /repo checkout -- . && git -C /repo clean -fdq -- rusty_basic rusty_parser rusty_linter rusty_pc rusty_variant rusty_bit_vec rusty_common'
+    sh(restore)
     if sh('git -C /repo diff --quiet').returncode != 0:
         print('repo not clean'); sys.exit(2)
-    head = sh('git -C /repo rev-parse --short HEAD').stdout.strip()
-    meta['repo_head'] = head
-    ap = sh(f'git -C /repo apply {patch}')
-    if ap.returncode != 0:
-        meta.update(applies=False, status='does not apply to the fixed tree', note=NOTES.get(name, ''))
+    meta['repo_head'] = sh('git -C /repo rev-parse --short HEAD').stdout.strip()
+    meta['how'] = 'git -C /repo apply; cargo test in /repo; ./check <ID> quick; git -C /repo checkout -- .'
+    if sh(f'git -C /repo apply {patch}').returncode != 0:
+        meta.update(applies=False, status='does not apply to the fixed tree')
     else:
         meta['applies'] = True
-        t = sh('cargo test --offline 2>&1 | grep -E "^test result"', cwd='/repo')
-        passed = sum(int(m) for m in re.findall(r'(\d+) passed', t.stdout))
-        failed = sum(int(m) for m in re.findall(r'(\d+) failed', t.stdout))
-        meta['repo_tests_with_patch'] = {'passed': passed, 'failed': failed}
-        c = sh(f'{ROOT}/check {prop} quick')
-        out = c.stdout + c.stderr
-        sigs = re.findall(r'signature: (.*)', out)
-        meta['check'] = {'command': f'./check {prop} quick', 'exit': c.returncode, 'violation_signatures': len(set(sigs)), 'first_signatures': sorted(set(sigs))[:5]}
-        if c.returncode == 1 and sigs:
-            meta['status'] = 'caught'
-        elif c.returncode == 0:
-            meta['status'] = 'not reported'
-            if name in NOTES:
-                meta['note'] = NOTES[name]
-        else:
-            meta['status'] = f'check exit {c.returncode}'
-    restore()
-    json.dump(meta, open(os.path.join(d, 'meta.json'), 'w'), indent=1)
-    rows.append(meta)
-    print(name, meta['status'], meta.get('repo_tests_with_patch'), flush=True)
+        meta['repo_tests_with_patch'] = tests('/repo')
+        c = sh(f'{ROOT}/check {meta["property"]} quick')
+        summarise_check(meta, c.stdout + c.stderr, c.returncode, f'./check {meta["property"]} quick')
+    sh(restore)
+    return meta
 
-if not only:
-    with open(os.path.join(SEEDS, 'RESULTS.md'), 'w') as f:
-        f.write('# Seeded changes and what the checks say about them\n\n')
-        f.write('Produced by tools/run_seeds.py on /repo HEAD %s. Every patch is applied with `git -C /repo apply`, the repository\'s own tests and the property\'s quick check are run, and /repo is restored.\n\n' % (rows[0]['repo_head'] if rows else ''))
-        f.write('| seed | applies | repo tests with the patch | quick check | note |\n|---|---|---|---|---|\n')
-        for m in rows:
-            t = m.get('repo_tests_with_patch')
-            f.write('| %s | %s | %s | %s | %s |\n' % (m['seed'], 'yes' + (' (ported)' if m['ported_to_fixed_tree'] else '') if m.get('applies') else 'no',
-                    ('%d passed, %d failed' % (t['passed'], t['failed'])) if t else '-', m['status'] + (': ' + m['check']['first_signatures'][0] if m.get('check') and m['check']['first_signatures'] else ''), m.get('note', '')))
+
+slots = list(range(PAR))
+slot_lock = threading.Lock()
+
+
+def run_scratch(name):
+    d = os.path.join(SEEDS, name)
+    patch = os.path.join(d, 'patch.diff')
+    meta = base_meta(name)
+    with slot_lock:
+        slot = slots.pop()
+    try:
+        wt = f'/tmp/rs/w{slot}'
+        head = sh('git -C /repo rev-parse HEAD').stdout.strip()
+        if not os.path.isdir(wt):
+            os.makedirs('/tmp/rs', exist_ok=True)
+            sh(f'git -C /repo worktree add --detach {wt} {head}')
+        sh(f'git -C {wt} checkout -q -- . && git -C {wt} clean -fdq -- rusty_basic rusty_parser rusty_linter rusty_pc rusty_variant rusty_bit_vec rusty_common && git -C {wt} checkout -q --detach {head}')
+        meta['repo_head'] = head[:7]
+        meta['how'] = 'scratch worktree of /repo at HEAD: git apply; cargo test there; tools/wtcheck.sh (the harness rebuilt against the worktree) <ID> quick'
+        if sh(f'git -C {wt} apply {patch}').returncode != 0:
+            meta.update(applies=False, status='does not apply to the fixed tree')
+        else:
+            meta['applies'] = True
+            meta['repo_tests_with_patch'] = tests(wt)
+            c = sh(f'WTCHECK_SCRATCH=/tmp/rs/c WTCHECK_LINES=400 {ROOT}/tools/wtcheck.sh {wt} {meta["property"]} quick')
+            out = c.stdout + c.stderr
+            m = re.search(r'exit=(\d+)', out)
+            summarise_check(meta, out, int(m.group(1)) if m else c.returncode, f'./check {meta["property"]} quick')
+            sh(f'git -C {wt} checkout -q -- .')
+    finally:
+        with slot_lock:
+            slots.append(slot)
+    return meta
+
+
+def finish(meta):
+    name = meta['seed']
+    if name in NOTES and meta.get('status') != 'caught':
+        meta['note'] = NOTES[name]
+    json.dump(meta, open(os.path.join(SEEDS, name, 'meta.json'), 'w'), indent=1)
+    print(name, meta.get('status'), meta.get('repo_tests_with_patch'), flush=True)
+
+
+names = [n for n in sorted(os.listdir(SEEDS)) if os.path.isfile(os.path.join(SEEDS, n, 'patch.diff')) and (not only or n in only)]
+if not report_only:
+    if official:
+        for n in names:
+            finish(run_official(n))
+    else:
+        with concurrent.futures.ThreadPoolExecutor(max_workers=PAR) as ex:
+            for meta in ex.map(run_scratch, names):
+                finish(meta)
+
+rows = []
+for name in sorted(os.listdir(SEEDS)):
+    mp = os.path.join(SEEDS, name, 'meta.json')
+    if os.path.isfile(mp):
+        rows.append(json.load(open(mp)))
+with open(os.path.join(SEEDS, 'RESULTS.md'), 'w') as f:
+    f.write('# Seeded changes and what the checks say about them\n\n')
+    f.write('Produced by tools/run_seeds.py. Every patch is applied to a tree at /repo\'s HEAD (a scratch worktree, or /repo itself with --official), the repository\'s own tests and the property\'s quick check are run, and the tree is restored. `needs` is what the change needs in order to manifest.\n\n')
+    f.write('| seed | tree | applies | repo tests with the patch | quick check | needs / note |\n|---|---|---|---|---|---|\n')
+    for m in rows:
+        t = m.get('repo_tests_with_patch')
+        f.write('| %s | %s | %s | %s | %s | %s |\n' % (
+            m['seed'], m.get('repo_head', ''), 'yes' + (' (ported)' if m.get('ported_to_fixed_tree') else '') if m.get('applies') else 'no',
+            ('%d passed, %d failed' % (t['passed'], t['failed'])) if t else '-',
+            m.get('status', '') + (': ' + m['check']['first_signatures'][0][:140] if m.get('check') and m['check']['first_signatures'] else ''),
+            (m.get('needs_to_manifest') or '') + ((' — ' + m['note']) if m.get('note') else '')))
+print('RESULTS.md written,', len(rows), 'seeds')
